@@ -68,8 +68,10 @@ def tasks(tier, seed):
     # extras are honoured downstream: the criterion runs with exactly the given extra arguments (incl. explicit zeros)
     two = [s for s in shapes.corner_shapes() if s.lprefs is not None and s.ns >= 2]
     EX = [[('mincost', [0, 1])], [('minsqcost', [0, 1])], [('mincostlsb', [1, 0])], [('mincostlsb', [0, 1])], [('mincost', [2, 0])],
-          [('gre', [1])], [('gen', [2])], [('maxsize', []), ('mincost', [0, 1])]]
-    for i in range(16 if tier == 'quick' else 64):
+          [('gre', [1])], [('gen', [2])], [('maxsize', []), ('mincost', [0, 1])],
+          # extras belong to their own criterion only: a later cost criterion without extras uses the documented defaults
+          [('mincost', [0, 1]), ('minsqcost', [])], [('minsqcost', [0, 2]), ('mincost', [])], [('maxsize', []), ('mincost', [0, 1]), ('minsqcost', [])]]
+    for i in range(22 if tier == 'quick' else 88):
         I = two[i % len(two)]
         seq = EX[i % len(EX)]
         if lpchecks.admissible(I, seq):
